@@ -562,9 +562,17 @@ class Server(utils.EventEmitter):
         return await self._notify_or_indicate_subscribers(True, attribute, value, force)
 
     def on_disconnection(self, bearer: att.Bearer) -> None:
-        self.subscribers.pop(bearer, None)
-        self.indication_semaphores.pop(bearer, None)
-        self.pending_confirmations.pop(bearer, None)
+        # The enhanced bearers of a connection go away with that connection
+        for registry in (
+            self.subscribers,
+            self.indication_semaphores,
+            self.pending_confirmations,
+        ):
+            for other in list(registry):
+                if other is bearer or (
+                    att.is_enhanced_bearer(other) and other.connection is bearer
+                ):
+                    registry.pop(other, None)
 
     def on_gatt_pdu(self, bearer: att.Bearer, att_pdu: att.ATT_PDU) -> None:
         logger.debug(f'GATT Request to server: {_bearer_id(bearer)} {att_pdu}')
